@@ -269,7 +269,12 @@ def _convert_load(
 def _convert_store(
     op: llvm.StoreOp, builder: ir.IRBuilder, val_map: dict[SSAValue, ir.Value]
 ):
-    store_instr = builder.store(val_map[op.value], val_map[op.ptr])
+    value = val_map[op.value]
+    ptr = val_map[op.ptr]
+    if not ptr.type.is_opaque and ptr.type.pointee != value.type:
+        # llvmlite pointers created by alloca and getelementptr are typed
+        ptr = builder.bitcast(ptr, value.type.as_pointer(ptr.type.addrspace))
+    store_instr = builder.store(value, ptr)
     if op.alignment:
         store_instr.align = op.alignment.value.data
 
